@@ -36,7 +36,11 @@ func c05IPs(admin int) map[string]string {
 	return m
 }
 
-var c05Endpoints = []string{"sign", "multisign@0", "multisign@1", "multisign@2", "att", "atts@0", "atts@1", "prop"}
+var c05Endpoints = []string{"sign", "multisign@0", "multisign@1", "multisign@2", "att", "atts@0", "atts@1", "prop",
+	// The generic endpoint with the 64 bytes of (data, domain) cut elsewhere than after byte 32: the data field holds the
+	// first k bytes of the root, the domain field the rest of the root followed by the domain under test. Whatever the
+	// rules look at, a signature that is valid for (root, domain under test) must not come back.
+	"sign-split@28", "sign-split@31", "sign-split@1", "sign-split@0", "sign-split@33"}
 
 // c05Exec runs one cell on a rig; returns whether a signature was released for the position under test and problems.
 func c05Exec(r *rig.SignerRig, domain []byte, endpoint string, ip string) (bool, string, error) {
@@ -50,6 +54,17 @@ func c05Exec(r *rig.SignerRig, domain []byte, endpoint string, ip string) (bool,
 	case "sign":
 		res, sig := r.Signer.SignGeneric(r.Ctx, creds, "Wallet 1/"+accts[0].Name(), nil, &rules.SignData{Domain: domain, Data: data})
 		return c05Judge(res, sig, accts[0], model.SigningRoot(b32x(data), domain))
+	case "sign-split@28", "sign-split@31", "sign-split@1", "sign-split@0", "sign-split@33":
+		var k int
+		fmt.Sscanf(endpoint, "sign-split@%d", &k)
+		whole := append(append([]byte{}, data...), domain...)
+		res, sig := r.Signer.SignGeneric(r.Ctx, creds, "Wallet 1/"+accts[0].Name(), nil, &rules.SignData{Domain: whole[k:], Data: whole[:k]})
+		root := model.SigningRoot(b32x(data), domain)
+		if len(sig) > 0 && string(sig) == string(rig.SymSigBytes(accts[0].PubBytes(), root[:])) {
+			return true, "", nil
+		}
+		_ = res
+		return false, "", nil
 	case "multisign@0", "multisign@1", "multisign@2":
 		fmt.Sscanf(endpoint, "multisign@%d", &pos)
 		names := make([]string, 3)
@@ -277,7 +292,7 @@ func C05(tier string) int {
 	run.Coverage = map[string]any{
 		"evaluations":         cells,
 		"distinct_nontrivial": len(classes),
-		"rule":                "full grid: domain = (first byte x 3 following bytes in {000000,000001,010000,ffffff} x 3 suffix fills) x 8 endpoint positions x 3 administrator lists x source addresses (absent, unlisted, listed first/last, proper prefix of a listed address, listed address with a suffix; all of them for the exit type, three representatives elsewhere); each cell executed on the real signer stack with fresh accounts; oracle = truth table from the property text, where a signature valid for the domain under test counts as released wherever in the response it appears; distinct = (endpoint, 4-byte type, allowed, signed) classes observed",
+		"rule":                "full grid: domain = (first byte x 3 following bytes in {000000,000001,010000,ffffff} x 3 suffix fills) x 13 endpoint positions (incl. the generic endpoint with the data/domain boundary moved to byte 0, 1, 28, 31, 33) x 3 administrator lists x source addresses (absent, unlisted, listed first/last, proper prefix of a listed address, listed address with a suffix; all of them for the exit type, three representatives elsewhere); each cell executed on the real signer stack with fresh accounts; oracle = truth table from the property text, where a signature valid for the domain under test counts as released wherever in the response it appears; distinct = (endpoint, 4-byte type, allowed, signed) classes observed",
 		"samples":             samples.List(),
 		"exhaustive":          true,
 		"grid":                map[string]any{"domains": len(domains), "first_bytes": len(b0s), "endpoints": len(c05Endpoints), "admin_lists": len(c05AdminLists)},
